@@ -1,5 +1,6 @@
 import PyhmsVerif.Props.C03
 import PyhmsVerif.Props.C08
+import PyhmsVerif.Props.C16Run
 /-!
 # C03 — a hard evaluation budget, at run level (`minimize(maxfun = N)`)
 
